@@ -658,7 +658,12 @@ pub fn settle_violation(
         let p = prop.to_string();
         let fails = move |cand: &Value| -> bool { eval_in_child(&p, cand, dev).map(|(k, _)| k == ok2).unwrap_or(false) };
         let (mut min, tried) = minimise(&replay, &okey, &fails);
-        let fin = eval_in_child(prop, &min, dev);
+        let mut fin = eval_in_child(prop, &min, dev);
+        if !fin.as_ref().map(|(k, _)| *k == okey).unwrap_or(false) {
+            // never report a minimised description that does not itself reproduce
+            min = replay.clone();
+            fin = alone.clone();
+        }
         let detail = fin.map(|x| x.1).unwrap_or(detail);
         min["shrink_candidates"] = json!(tried);
         min["found_in"] = json!(format!("{batch} case {}", case.index));
